@@ -433,6 +433,82 @@ def c18d_walk(ctx, tu, fn):
            detail="" if byte_why is None else byte_why)
 
 
+
+def _norm_t(t):
+    t = re.sub(r"\bconst\b|\bvolatile\b", "", t or "")
+    return re.sub(r"[\s&()]", "", t)
+
+
+def _targs18(t):
+    i = t.find("<")
+    if i < 0:
+        return []
+    depth, cur, out = 0, "", []
+    for ch in t[i:]:
+        if ch == "<":
+            depth += 1
+            if depth == 1:
+                continue
+        elif ch == ">":
+            depth -= 1
+            if depth == 0:
+                break
+        if ch == "," and depth == 1:
+            out.append(cur.strip())
+            cur = ""
+        else:
+            cur += ch
+    if cur.strip():
+        out.append(cur.strip())
+    return out
+
+
+SEQ_CONTAINERS = ("std::vector<", "std::array<", "std::list<", "std::deque<", "std::set<", "std::multiset<",
+                  "std::forward_list<", "std::initializer_list<", "std::unordered_set<")
+MAP_CONTAINERS = ("std::map<", "std::multimap<", "std::unordered_map<")
+
+
+def element_type(c):
+    """the element type of a collection type, for the type families whose element type can be read off the name"""
+    c = c.strip()
+    m = re.match(r"^(.*?)\s*\[\d*\]((?:\[\d*\])*)$", c)
+    if m and "<" not in m.group(1).split("[")[0][-1:]:
+        return m.group(1) + m.group(2)
+    if c.startswith(SEQ_CONTAINERS):
+        a = _targs18(c)
+        return a[0] if a else None
+    if c.startswith(MAP_CONTAINERS):
+        a = _targs18(c)
+        return "std::pair<const %s, %s>" % (a[0], a[1]) if len(a) >= 2 else None
+    return None
+
+
+def c18a_nested(ctx, tu):
+    """Nested collections are printed element-wise: what the collection printer hands to print() for each element has
+    the collection's ELEMENT TYPE - not a decayed (array -> pointer), sliced or converted one - so an inner array /
+    container reaches the collection printer again and an inner pointer reaches the null guard."""
+    n = 0
+    for fn in tu.fns.values():
+        if not fn.has_body or not fn.q.startswith(NS + "streamer<") or not fn.rec.get("lambda"):
+            continue
+        m = re.match(r"trompeloeil::streamer<(.*), (true|false), (true|false)>::", fn.q)
+        if not m or m.group(2) == "true" or m.group(3) != "true":
+            continue
+        pr = [e for b, e in fn.events() if e["e"] == "call" and qe(e) == NS + "print" and e.get("callee") in tu.fns]
+        if not pr:
+            continue
+        want = element_type(m.group(1))
+        if want is None:
+            continue
+        n += 1
+        got = tu.fns[pr[0]["callee"]].rec["params"][-1]["t"]
+        ok = _norm_t(got) == _norm_t(want)
+        ctx.ob("C18.a.nested", "streamer<%s> element" % erase(m.group(1)), ok, pattern=fn.pat, unit=tu.name, inst=fn.q,
+               detail="" if ok else "the elements of %s are of type %s, but the collection printer prints them as %s: a "
+               "nested array decays to a pointer (an address is printed instead of its elements), a nested object "
+               "is converted" % (m.group(1), want, got))
+    return n
+
 WITNESS = r'''
 #include <trompeloeil.hpp>
 #include <map>
@@ -496,7 +572,8 @@ def run(ctx):
         "C18.a in every instantiation of print() the printer dispatch is on the non-null edge of is_null(value) and "
         "'nullptr' on the null edge (edge dominance), and inside every tuple / pair / collection streamer the only "
         "direct insertions are separators - elements go through print(), so the guard applies at every nesting "
-        "depth; C18.b stream_sentry saves width/flags/fill by exchange with 0 / dec|left / ' ' and restores each "
+        "depth, and what a collection printer hands to print() has the collection's element type (no array decay, no "
+        "conversion), so nested collections recurse into the collection printer; C18.b stream_sentry saves width/flags/fill by exchange with 0 / dec|left / ' ' and restores each "
         "from what it saved; C18.c every direct insertion of a value (streamable leaf, hex dump) is dominated by a "
         "sentry local that lives to the end of the function; C18.d an opaque value is dumped as sizeof(T) bytes from "
         "its address; C18.e compile-time witnesses for the dispatch traits over the type family.")
@@ -504,12 +581,15 @@ def run(ctx):
     ctx.not_decided = ["digits and line breaks of the hex dump for every size"]
     units = []
     n = 0
+    n_nested = 0
     for tu in ctx.units(lambda n: n.startswith("print") or n.startswith("repo_ct")):
         n += c18a(ctx, tu)
+        n_nested += c18a_nested(ctx, tu)
         c18b(ctx, tu)
         n += c18c(ctx, tu)
         c18d(ctx, tu)
         units.append({"unit": tu.name, "functions": len(tu.fns)})
     ctx.floor("C18 print/streamer instantiations", n, 30)
+    ctx.floor("C18.a.nested collection element types", n_nested, 10)
     c18e(ctx)
     ctx.extra["units"] = units
